@@ -696,6 +696,24 @@ def check_key_covers(repo):
             (lambda e: isinstance(e, ast.Name) and e.id == second_param, "the axes groups"),
         ]:
             obs.append(ob(f"key_covers.key_contains.{what.replace(' ', '_').replace(',', '')}", any(pred(e) for e in elts), f"cache key does not contain {what}", cached.lineno))
+    # A-hash is only justified for a collision resistant digest of a canonical serialisation
+    hf = repo.module("abelian_core").functions.get("hasher")
+    verdict, why = None, "hasher not found / not recognised"
+    if hf is not None and len(hf.args.args) == 1:
+        arg = hf.args.args[0].arg
+        rets = [n for n in ast.walk(hf) if isinstance(n, ast.Return) and n.value is not None]
+        if len(rets) == 1:
+            txt = ast.unparse(rets[0].value).replace(" ", "")
+            import re as _re
+
+            if _re.fullmatch(r"hashlib\.(sha1|sha224|sha256|sha384|sha512|sha3_\d+|blake2[bs]|md5)\(pickle\.dumps\(%s(,protocol=[-\w.]+)?\)\)\.(hex)?digest\(\)" % arg, txt):
+                verdict = True
+            elif _re.fullmatch(r"hash\(%s\)" % arg, txt) or _re.fullmatch(r"%s\.__hash__\(\)" % arg, txt):
+                # CPython: hash(-1) == hash(-2), and tuple hashes are built from element hashes
+                verdict, why = False, "hasher is the builtin hash, which is not injective on charges: hash((-1,)) == hash((-2,)) in CPython, so indices differing by charge -1 / -2 share a cache key"
+            else:
+                why = f"hasher returns {txt[:80]}: not a recognised collision resistant digest (undecided)"
+    obs.append(ob("key_covers.hasher_is_a_collision_resistant_digest_of_the_pickled_key", verdict, why, hf.lineno if hf is not None else None))
     # hash keys cover every slot
     for cls, memo in (("BlockIndex", "_hashkey"), ("SubIndexInfo", "_hashkey")):
         cnode = mod.classes[cls]
